@@ -377,6 +377,30 @@ fn startup_case(out: &mut Out, r: &mut Rng, cfg: &ProcCfg) {
         let _ = s.send_to(&classic_request(&r.bytes(64), 1024), sp.addr());
         if recv_from_port(&s, &mut buf, sp.port).is_ok() { udp_after = 1; break; }
     }
+    // steady service over several statistics-publication and reporting periods (workers publish per-client statistics
+    // every status_interval/10 s, the reporter wakes every second): 28 ticks of 110 ms, in each tick 3n requests from
+    // fresh source ports (so that most workers have traffic in every publication window); every one must be answered
+    let (mut steady_sent, mut steady_ok) = (0usize, 0usize);
+    {
+        let mut pending: Vec<UdpSocket> = vec![];
+        for _tick in 0..28 {
+            let t_end = Instant::now() + Duration::from_millis(110);
+            for _ in 0..3 * n {
+                let s = UdpSocket::bind("127.0.0.1:0").unwrap();
+                s.set_read_timeout(Some(Duration::from_millis(2))).unwrap();
+                let req = if r.chance(1, 2) { classic_request(&r.bytes(64), 1024) } else { ietf_request(&VER13, None, &r.bytes(32), 1024) };
+                if s.send_to(&req, sp.addr()).is_ok() { steady_sent += 1; pending.push(s); }
+            }
+            while Instant::now() < t_end {
+                pending.retain(|s| match recv_from_port(s, &mut buf, sp.port) { Ok(_) => { steady_ok += 1; false } Err(_) => true });
+                if pending.is_empty() { std::thread::sleep(Duration::from_millis(5)); }
+            }
+        }
+        let t_end = Instant::now() + Duration::from_millis(1500);
+        while !pending.is_empty() && Instant::now() < t_end {
+            pending.retain(|s| match recv_from_port(s, &mut buf, sp.port) { Ok(_) => { steady_ok += 1; false } Err(_) => true });
+        }
+    }
     let live1 = sp.live_workers();
     let alive = sp.child.try_wait().ok().flatten().is_none();
     sp.signal(libc::SIGTERM);
@@ -385,8 +409,8 @@ fn startup_case(out: &mut Out, r: &mut Rng, cfg: &ProcCfg) {
     let panics = text.matches("panicked").count();
     let leak = leak_scan(&secret_patterns(&cfg.seed), text.as_bytes()).unwrap_or("0".into());
     let imp = format!(
-        "started=1 n={} live0={} live1={} keys={} answered={}/{} hc_seq={}/{} hc_par={}/{} hc_burst={}/{} udp_after={} alive={} panics={} exit={} leak={}",
-        n, live0, live1, keys.len(), answered, sent, hc_seq_ok, if sp.hc_port.is_some() { 20 } else { 0 }, hc_par_ok, hc_par_n, hc_burst_ok, hc_burst_n,
+        "started=1 n={} live0={} live1={} keys={} answered={}/{} hc_seq={}/{} hc_par={}/{} hc_burst={}/{} steady={}/{} udp_after={} alive={} panics={} exit={} leak={}",
+        n, live0, live1, keys.len(), answered, sent, hc_seq_ok, if sp.hc_port.is_some() { 20 } else { 0 }, hc_par_ok, hc_par_n, hc_burst_ok, hc_burst_n, steady_ok, steady_sent,
         udp_after, if alive { 1 } else { 0 }, panics,
         exit.map(|e| e.0.to_string()).unwrap_or("timeout".into()), leak
     );
@@ -606,7 +630,7 @@ fn shutdown_case(out: &mut Out, r: &mut Rng, nworkers: usize, client_stats: bool
     cfg.client_stats = client_stats;
     // status_interval also paces the statistics reporter: cover short, medium and the default (600 s)
     cfg.status = match delay_ms % 3 { 0 => None, 1 => Some(10), _ => Some(120) };
-    if regime == "load-stats" {
+    if regime == "load-stats" || regime == "persist-fault" {
         // busy workers publishing per-client snapshots every 100 ms into a queue the reporter drains once a second
         cfg.status = Some(1);
     }
@@ -617,9 +641,14 @@ fn shutdown_case(out: &mut Out, r: &mut Rng, nworkers: usize, client_stats: bool
         Err(e) => { out.case("sd", &[&desc, "-"], &format!("started=0 err={}", e.replace(' ', "_"))); return; }
     };
     let addr = sp.addr();
+    if regime == "persist-fault" {
+        // the statistics reporter's output directory disappears once the server is serving (every report fails from
+        // then on): whatever the reporter does about that must not delay the exit
+        let _ = std::fs::remove_dir_all(format!("{}/persist", sp.dir));
+    }
     let stop = Arc::new(AtomicBool::new(false));
     let mut handles = vec![];
-    let nthreads = match regime { "idle" => 0, "early" => 0, "load" => 4, "load-stats" => 4 * nworkers.max(1), "junk" => 2 * nworkers.max(1), _ => 6 };
+    let nthreads = match regime { "idle" => 0, "early" => 0, "load" => 4, "load-stats" => 4 * nworkers.max(1), "persist-fault" => 2, "junk" => 2 * nworkers.max(1), _ => 6 };
     for t in 0..nthreads {
         let stop = stop.clone();
         let flood = regime == "flood";
@@ -761,6 +790,12 @@ pub fn run_shutdown(ctx: &Ctx) {
         let sig = if k % 2 == 0 { libc::SIGINT } else { libc::SIGTERM };
         shutdown_case(&mut out, &mut r, w, true, sig, "load-stats", 2600 + 400 * k as u64);
     }
+    // the reporter's persistence directory removed under load (reports fail): signals swept across a reporting period
+    for (k, &d) in [1100u64, 1400, 1900, 2300, 2700, 3300].iter().enumerate() {
+        if !ctx.thorough && k % 2 == 1 { continue; }
+        let sig = if k % 2 == 0 { libc::SIGTERM } else { libc::SIGINT };
+        shutdown_case(&mut out, &mut r, [1usize, 4][k % 2], true, if k == 4 { libc::SIGINT } else { sig }, "persist-fault", d);
+    }
     out.flush();
 }
 
@@ -787,7 +822,7 @@ pub fn run_client_real(ctx: &Ctx) {
                 // the other protocol and of other clients): the server is stopped while everything is queued
                 for (nreq, mixed) in [(1usize, false), (64, false), (1, true), (2, true), (40, true)] {
                     let key = match keymode { 0 => None, 1 => Some((false, pk.clone())), _ => Some((true, pk.clone())) };
-                    let spec = RunSpec { ver, key, nreq, json: false, kind: "honest".into() };
+                    let spec = RunSpec { ver, key, spell: 0, nreq, json: false, kind: "honest".into() };
                     let res = if !mixed { run_client_to(&spec, sp.port) } else {
                         let noise = std::net::UdpSocket::bind("127.0.0.1:0").unwrap();
                         let dst = format!("127.0.0.1:{}", sp.port);
